@@ -889,6 +889,14 @@ def gen_cases(ctx, per_svc, n_region):
             cases.append(gen_case(ctx.rng, svc, region=True))
     for _ in range(2 * n_region):
         cases.append(gen_datum_region_case(ctx.rng))
+    # more UTxOs at one address than the service hands out per page (Blockfrost: 100)
+    big = gen_case(ctx.rng, 'blockfrost')
+    us = [gen_utxo(ctx.rng, 'blockfrost', None) for _ in range(ctx.rng.choice([101, 137]))]
+    for k, u in enumerate(us):
+        u['index'] = k
+        u['assets'], u['flat'], u['datum'] = [], [], ['none']
+    big['utxos'] = us
+    cases.append(big)
     return cases
 
 
